@@ -234,7 +234,16 @@ func (g *gen) numExpr(d int) Expr {
 	}
 }
 
+// strExpr: a string expression that mentions at most one string variable. The value may end up in a string variable
+// (a declaration, a returned value, an assignment through another variable), and a statement that is executed
+// repeatedly must make strings grow by a constant at most, never double them (`local t = s .. s; s = t` in a loop
+// that runs 70 times exhausted the memory of a worker: a false alarm of the C12 check in `vp check` 4).
 func (g *gen) strExpr(d int) Expr {
+	vars := 1
+	return g.strExprB(d, &vars)
+}
+
+func (g *gen) strExprB(d int, vars *int) Expr {
 	c := g.ch(6)
 	if d <= 0 && c >= 4 {
 		c = g.ch(4)
@@ -243,14 +252,15 @@ func (g *gen) strExpr(d int) Expr {
 	case 0, 1:
 		return Str{strConsts[g.ch(len(strConsts))]}
 	case 2, 3:
-		if v := g.pick(kStr); v != nil {
+		if v := g.pick(kStr); v != nil && *vars > 0 {
+			*vars--
 			return Var{v.name}
 		}
 		return Str{"d"}
 	case 4:
-		return Bin{"..", g.strExpr(d - 1), g.strExpr(d - 1)}
+		return Bin{"..", g.strExprB(d-1, vars), g.strExprB(d-1, vars)}
 	default:
-		return Bin{"..", g.strExpr(d - 1), Num{float64(g.ch(20))}}
+		return Bin{"..", g.strExprB(d-1, vars), Num{float64(g.ch(20))}}
 	}
 }
 
